@@ -279,6 +279,17 @@ def run(R, ctx):
         note="add / add-learner / promote / remove events through ProposeConfChange + ApplyConfChange; not replayed on the model (outside the proved fragment), "
              "only the safety predicates are evaluated on the RawNodes")
     R.evaluations += len(sd)
+    # ---- Stage D, step 4: the member / member-partition schedules are replayed event by event on the config-aware handler RHC.handleC
+    mem_ev = [l for l in evs if len(l.split(" ")) == 16]
+    mem_in = {k[3:]: v for k, v in summ.items() if k.startswith("in-c-")}
+    mem_mism = [m for m in mism if len(m.split(" :: ", 1)[-1].split(" ")) == 16 and " :: E " in m]
+    R.oblige("lock-step with membership changes: raft.RawNode = RHC.handleC on every event of the member / member-partition schedules (projection incl. "
+             "applied index, voters and learners of the tracker config; every message a computed response or leaderOut; every recv enabled; "
+             "ApplyConfChange / proposal gate / campaign gate / restarts from snapshots replayed)", "correspondence",
+             not mem_mism and (summ.get("member-schedules", 0) > 0) == (len(mem_ev) > 0) and (len(mem_ev) > 0 or R.tier != "quick"),
+             "%d member schedules, %d events, %d mismatches" % (summ.get("member-schedules", 0), len(mem_ev), len(mem_mism)))
+    R.extra["stageD_member_lockstep"] = dict(schedules=summ.get("member-schedules", 0), events=len(mem_ev), mismatches=len(mem_mism), model_inputs=mem_in,
+        note="inputs suffixed +config changed the node's configuration (cfgAt of its own log at its applied index), +commit moved its commit index")
     # ---- Stage D, protocol level: the configuration part of Raft/RSC.lean against RawNode (CF / GT / HP lines of the member-* schedules)
     tie = {k: summ.get(k, 0) for k in summ if k.startswith("d:CF") or k.startswith("d:GT") or k.startswith("d:HP")}
     tie_lines = [l for l in lines if l[:3] in ("CF ", "GT ", "HP ")]
